@@ -22,6 +22,15 @@ def mcjob(module, cfg=None, workers=8, timeout=900, xmx='8g', witness=False):
     return dict(module=module, cfg=cfg or module, workers=workers, timeout=timeout, xmx=xmx, witness=witness)
 
 
+def plerec_mc(tier):
+    """block-recursive PLE/PLUQ driver (alg/PLERec.tla): both base-case pivot rules, reachability witnesses; thorough: more shapes"""
+    js = [mcjob('MC_PLERec', 'MC_PLERec', workers=8), mcjob('MC_PLERec', 'MC_PLERec_last', workers=8),
+          mcjob('MC_PLERec', 'MC_PLERec_wit_NoRecursion', workers=2, witness=True), mcjob('MC_PLERec', 'MC_PLERec_wit_NoDeep', workers=4, witness=True)]
+    if tier != 'quick':
+        js += [mcjob('MC_PLERec', 'MC_PLERec_full', workers=12, timeout=3000), mcjob('MC_PLERec', 'MC_PLERec_deep', workers=12, timeout=3000)]
+    return js
+
+
 def c01_jobs(tier, seed):
     if tier == 'quick':
         return [TraceJob(SMALL, 'mul', shards=12, args=['--cases', 720]),
@@ -389,15 +398,17 @@ PROPS = {
                 mc=lambda tier: [mcjob('MC_AllocFault', workers=4)],
                 assumptions=['only allocation requests issued by m4ri code (malloc/calloc/realloc/posix_memalign at link level) are failed; libpng/libc internal allocations are not',
                              'one failure per run (the property speaks of a single failed allocation)']),
-    'C14': dict(level='model_checking', reasons={'heap_calls', 'fresh_not_zero_or_live_corrupted', 'storage_shared', 'live_matrix_corrupted', 'free_of_non_live_pointer',
-                                                 'spec_invariant', 'memory_retained', 'harness_precondition', 'crash'},
+    'C14': dict(level='model_checking', reasons={'fresh_not_zero_or_live_corrupted', 'storage_shared', 'live_matrix_corrupted', 'free_of_non_live_pointer',
+                                                 'memory_retained', 'harness_precondition', 'crash'},
+                # conformance of the cache POLICY to Alloc.tla: a mismatch is model drift (MC_Alloc's results no longer transfer), not a C14 violation
+                drift={'heap_calls', 'spec_invariant', 'model_retained'},
                 prepare=c14_prepare, jobs=c14_jobs, mc=c14_mc,
                 assumptions=['the link-time malloc/free wrappers see every heap call of the m4ri objects', 'header-cache geometry (64 headers per block) is a constant of the code',
                              'random histories are sampled; generated histories are exhaustive up to the stated depth for the reduced-capacity build']),
     'C09': dict(level='model_checking', reasons=ALG_REASONS | {'padding'}, jobs=views_jobs, mc=lambda tier: [mcjob('MC_MzdWords', c, workers=16, timeout=2400) for c in ('MC_MzdWords_c08_w3', 'MC_MzdWords_c13_w3')], assumptions=GEN_ASSUME + [
         'window placements are sampled from the classes row offset {0,1,5} x word offset {0,1,2,3} x parent wider by {0,1,17,64,65,130} columns x rows below or not']),
     'C02': alg(simple_jobs('elim', 640), mc=lambda tier: gf2_mc(tier) + [mcjob('MC_Echelon', 'MC_Echelon_km%d' % km, workers=12) for km in (1, 2, 6)]),
-    'C03': alg(simple_jobs('ple', 480, qshards=12), mc=lambda tier: gf2_mc(tier) + [mcjob('MC_PLE', 'MC_PLE', workers=12), mcjob('MC_PLE', 'MC_PLE_tall', workers=12)]),
+    'C03': alg(simple_jobs('ple', 480, qshards=12), mc=lambda tier: gf2_mc(tier) + [mcjob('MC_PLE', 'MC_PLE', workers=12), mcjob('MC_PLE', 'MC_PLE_tall', workers=12)] + plerec_mc(tier)),
     'C04': alg(simple_jobs('trsm', 480), mc=lambda tier: gf2_mc(tier) + [mcjob('MC_TRSM', workers=12, timeout=1800)]),
     'C05': alg(simple_jobs('inv', 320), mc=lambda tier: gf2_mc(tier) + [mcjob('MC_Solve', workers=12)]),
     'C06': alg(simple_jobs('solve', 480), mc=lambda tier: gf2_mc(tier) + [mcjob('MC_Solve', workers=12), mcjob('MC_Solve', 'MC_Solve_wit_f03', workers=4, witness=True)]),
@@ -547,6 +558,7 @@ def run_property(prop, tier, seed):
     perop = {}
     samples = []
     other = {}
+    drift = {}
     classes = {}
     reached = {}
     for (job, shard), tr, r in zip(pairs, traces, results):
@@ -603,7 +615,10 @@ def run_property(prop, tier, seed):
             rel = sorted(set(reasons) & P['reasons'])
             if not rel:
                 for x in reasons:
-                    other[x] = other.get(x, 0) + 1
+                    if x in P.get('drift', ()):
+                        drift[x + ' ' + job.label] = drift.get(x + ' ' + job.label, 0) + 1
+                    else:
+                        other[x] = other.get(x, 0) + 1
                 continue
             sig = sig_of(ev, call, job)
             sig['reasons'] = rel
@@ -631,6 +646,9 @@ def run_property(prop, tier, seed):
                     pass
     for ck in sorted(classes):
         log('[rejected] %4d x %s' % (classes[ck], ck))
+    for dk in sorted(drift):
+        log('[model-drift] %4d x %s: the code no longer follows the specification\'s internal policy here; the bounded model checks of that '
+            'policy do not transfer to this tree (not a verdict about the property, which is judged on the observables)' % (drift[dk], dk))
     if other:
         log('[note] rejections for reasons judged by other properties (not counted here): %s' % other)
     if not samples and sigs:
@@ -643,6 +661,7 @@ def run_property(prop, tier, seed):
         'events_per_operation': perop, 'model_checks': mc_summ,
         'build_configurations': sorted(set(j.cfg for j in jobs)),
         'rejections_left_to_other_properties': other,
+        'model_drift': drift,
         'internal_routines_reached': reached,
     }
     res['coverage'].update(extra_cov)
